@@ -383,6 +383,20 @@ def run(ck):
                                 faulty_then_good(real2, at, real1 + "+" + real2)
                             okr = attempt("good")
                             emit("recover", fault=real1, follow=real1 + ("+" + real2 if real2 else "") + "+good", ok=okr, **at, **observe())
+            # ---- (d) one filesystem call of the sync fails (EIO / ENOSPC): the syncer's own handling + exit cleanup run ----
+            import errno
+
+            for k in range(1, n_mut + 1):
+                fresh(root, setup)
+                with Stack(unseen()):
+                    r, _exc = fsrec.run_with_fault(root, lambda: attempt("good"), k, err=errno.ENOSPC if k % 2 else errno.EIO)
+                fe = next((e for e in r.events if e["op"] == "fault"), None)
+                if fe is None:
+                    raise tlc.MachineryError(f"fault replay @{k}: nothing was injected")
+                at = dict(kind="eio", k=k, at_op=fe.get("failed_op", "?"), at_path=fe.get("rp", "?"))
+                emit("iofault", fault="eio", **at, **observe())
+                okr = attempt("good")
+                emit("recover", follow="eio+good", ok=okr, **at, **observe())
             plan = crash_pts
             ck.extra["crash_points"] = ck.extra.get("crash_points", 0) + len(plan)
             ck.extra["scenarios"] = ck.extra.get("scenarios", 0) + 1
